@@ -20,6 +20,30 @@ CHECKS = {
         technique="Coq proof over hand-written model + exhaustive differential correspondence evaluated in Coq",
         ref="DESIGN.md §3 C19"),
 }
+CHECKS["C10"] = dict(
+    text="Theorems (Coq, closed under the global context) about a Gallina model of RangelistModel.compact/intersect, "
+         "CoverpointBinCollectionModel.mk_collection, bin/bin_array/auto-bin construction and coverpoint sampling: normalisation "
+         "keeps values and sorts; trimming removes exactly the ignore/illegal values, keeps order and always terminates; the bins "
+         "of an array/auto-bin spec enumerate the ascending remaining values in order with sizes q,...,q,rest (or one per value); "
+         "for every sample sequence bin i holds the number of samples taken while iff held whose value is in its set; a value "
+         "outside every bin changes nothing. Tie: on every run random specs are built on a real covergroup, sampled with every "
+         "value of the type, and the model and an enumeration-based specification are evaluated inside Coq on the observed counters.",
+    note="Trusted: Coq kernel, harness, CPython. Model hand-written (tie = differential run). Ranges inside one bin spec and "
+         "ignore/illegal items are pairwise disjoint (the property's quantifier). For types wider than 8 bits only the model "
+         "(not the enumerating spec) is compared.",
+    technique="Coq proof over hand-written model + differential correspondence evaluated in Coq",
+    ref="DESIGN.md §3 C10")
+CHECKS["C11"] = dict(
+    text="Theorems (Coq, closed) about a Gallina state-machine model of CoverpointCrossModel (_build_hit_map, sample) including "
+         "the persistent per-bin hit markers the cross reads: row-major numbering is a bijection between bin-index tuples and "
+         "cross bins; what a sample adds to the cross depends on that sample only (no stale marker); for every sample sequence "
+         "cross bin t holds the number of samples on which all iff conditions held and coverpoint j hit bin t_j. Tie: random "
+         "covergroups with 2-3 coverpoints and a cross are sampled on the real code; after every sample the increments of every "
+         "coverpoint and cross bin are recorded and judged inside Coq by the model and by a spec that only uses the observed "
+         "coverpoint hits, the iff flags and the bin names.",
+    note="Trusted: Coq kernel, harness, CPython. Model hand-written. Bins of one coverpoint are mutually disjoint.",
+    technique="Coq proof over hand-written state-machine model + per-sample differential correspondence evaluated in Coq",
+    ref="DESIGN.md §3 C11")
 NOT_YET = {}
 
 def main():
